@@ -477,8 +477,8 @@ func (l *commitLog) NewLeaderEpoch(epoch uint64) error {
 // larger than the provided one or the log end offset if the current epoch
 // equals the provided one.
 func (l *commitLog) LastOffsetForLeaderEpoch(epoch uint64) int64 {
-	offset := l.leaderEpochCache.LastOffsetForLeaderEpoch(epoch)
-	if offset == -1 {
+	offset, ok := l.leaderEpochCache.lookupLastOffsetForLeaderEpoch(epoch)
+	if !ok {
 		offset = l.activeSegment().NextOffset() - 1
 	}
 	return offset
